@@ -36,13 +36,27 @@ type blk struct {
 	nodes []int
 }
 
-var addrs = [][]byte{
-	bytes.Repeat([]byte{0x31}, 32), // 0: system account, nonce bumped by every block
-	append([]byte{0x11, 0x11}, bytes.Repeat([]byte{0x01}, 30)...),
-	append([]byte{0x11, 0x12}, bytes.Repeat([]byte{0x02}, 30)...),
-	append([]byte{0x21, 0x00}, bytes.Repeat([]byte{0x03}, 30)...),
+// Trie keys are read from the LAST byte backwards, low nibble first (trie.keyBytesToHex).  Addresses and storage keys
+// are chosen so that main trie and data tries contain a branch whose two children are a leaf and a BRANCH:
+//
+//	main trie:  root{ 1 -> X{ 0 -> Y{ 0 -> acc1, 1 -> acc2 }, 1 -> acc3 }, f -> system account }
+//	data trie:  root{ 1 -> K0, 2 -> B{ 0 -> K1, 1 -> K2 | C{ 0 -> K2, 1 -> K3 } } }
+//
+// so that removing acc3 / deleting K0 collapses a branch over a committed (not dirty) branch child, removing acc1 or K1
+// collapses over a leaf, etc.  The system account (nonce bumped by every block) sits on another path.
+func addrEnding(fill byte, tail ...byte) []byte {
+	a := bytes.Repeat([]byte{fill}, 32)
+	copy(a[32-len(tail):], tail)
+	return a
 }
-var dkeys = [][]byte{[]byte("ka"), []byte("kb"), []byte("xa"), []byte("kaa")}
+
+var addrs = [][]byte{
+	addrEnding(0x31, 0x0f),       // 0: system account
+	addrEnding(0x01, 0x00, 0x01), // 1: path 1,0,0,...
+	addrEnding(0x02, 0x01, 0x01), // 2: path 1,0,1,...
+	addrEnding(0x03, 0x11),       // 3: path 1,1,...
+}
+var dkeys = [][]byte{{0x00, 0x01}, {0x00, 0x02}, {0x00, 0x12}, {0x01, 0x12}}
 
 // recQueue records what the real pruning queue returned
 type recQueue struct {
